@@ -179,7 +179,7 @@ func parseTarget(raw string, defaultPort int, wantIPv6 bool) (netip.AddrPort, er
 		found := false
 		for _, r := range ips {
 			if wantIPv6 {
-				if r.To16() != nil {
+				if r.To4() == nil && r.To16() != nil {
 					ip = netip.MustParseAddr(r.String())
 					found = true
 					break
